@@ -218,14 +218,15 @@ def fit_jobs(run):
         plan = [("daily", "current-weekday"), ("daily", "legacy"), ("daily", "current-dev"), ("daily", "legacy-dev"),
                 ("billing", "billing"), ("billing", "billing-season"),
                 ("hourly", "default"), ("hourly", "reversed-solar"), ("hourly", "supplemental"), ("hourly", "no-edge-bins"),
-                ("caltrack", "caltrack")]
+                ("caltrack", "caltrack"), ("caltrack", "caltrack-4weeks")]
     else:
         plan = []
         for i in range(max(3, int(32 * scale()))):
             plan.append(("daily", list(c01fits.DAILY_PROFILES)[i % len(c01fits.DAILY_PROFILES)]))
             plan.append(("billing", list(c01fits.BILLING_PROFILES)[i % len(c01fits.BILLING_PROFILES)]))
             plan.append(("hourly", list(c01fits.HOURLY_PROFILES)[i % len(c01fits.HOURLY_PROFILES)]))
-        plan += [("caltrack", "caltrack")] * max(1, int(10 * scale()))
+        ct = ["caltrack", "caltrack-4weeks", "caltrack-11months", "caltrack-gap"]
+        plan += [("caltrack", ct[i % 4]) for i in range(max(4, int(10 * scale())))]
     # longest first
     order = {"caltrack": 0, "daily": 1, "hourly": 2, "billing": 3}
     jobs = [{"family": f, "profile": p, "seed": r.randrange(2**31)} for f, p in plan]
